@@ -159,9 +159,9 @@ func main() {
 		Assumptions: []string{"refir evaluator", "blocks built through deps.NewCode from synthetic parser.Instruction values"},
 		Cases: func(t string) int {
 			if t == "thorough" {
-				return 100000
+				return 250000
 			}
-			return 12000
+			return 30000
 		},
 		Floor: func(t string) int {
 			if t == "thorough" {
